@@ -100,6 +100,7 @@ def scan(P, aliases=None, exact=False):
     recs = []
 
     def visit(m, qual, fn, in_scope):
+        own_class = qual.split(".")[0] if "." in qual else None
         ps = _params(fn)
         reads_kwargs = any(isinstance(n, ast.Constant) and n.value == P for n in ast.walk(fn))
         scope = in_scope or P in ps or reads_kwargs or (fn.name in aliases and aliases[fn.name] in ps)
@@ -107,7 +108,9 @@ def scan(P, aliases=None, exact=False):
             return
         for call in [n for n in ast.walk(fn) if isinstance(n, ast.Call)]:
             cn = call.func.attr if isinstance(call.func, ast.Attribute) else (call.func.id if isinstance(call.func, ast.Name) else None)
-            if cn not in sinks:
+            if cn == "cls" and own_class is not None:
+                cn = own_class   # cls(...) in a class method constructs the class itself
+            if cn not in sinks or cn == "__init__":   # (Base.__init__(self, ...) calls say nothing: which __init__ is not known by name)
                 continue
             pn, pos = sinks[cn]
             passed = None
